@@ -1,5 +1,7 @@
 mod cfgbuild;
 mod fanout;
+mod filetrace;
+mod rng;
 mod fixedwindow;
 mod fsutil;
 mod levelgate;
@@ -18,6 +20,7 @@ fn main() {
         "routing" => routing::main(rest),
         "cfgbuild" => cfgbuild::main(rest),
         "fanout" => fanout::main(rest),
+        "filetrace" => filetrace::main(rest),
         "rolling" => rolling::main(rest),
         "fixedwindow" => fixedwindow::main(rest),
         "levelgate" => levelgate::main(rest),
